@@ -2,6 +2,7 @@ import Vinegar.Lemmas.PathsSpec
 import Vinegar.Lemmas.PathsCheck
 import Vinegar.Lemmas.PathsHandle
 import Vinegar.Lemmas.PathsConsts
+import Vinegar.Lemmas.PathsCtor
 /-
 C06 — request-path matching and system lookup are exact and equal for HTTP and TFTP.
 
@@ -275,9 +276,6 @@ theorem template_context_spec (h : Handler) (env : Env) (ctx : Ctx) (p c : Str) 
           simp [hex] at hcond
           exact hcond
 
-/-- the same handler as the other protocol's class -/
-def asTftp (h : Handler) (b : Bool) : Handler := { h with cfg := { h.cfg with tftp := b } }
-
 /-- **TFTP = HTTP ∘ slash.** For every handler state, environment and name `f`, the whole
     observation of the TFTP class (context, `can_handle` answer, data-source calls, opened
     paths, outcome) equals that of the HTTP class with the same configuration for a GET of
@@ -293,6 +291,29 @@ theorem tftp_parity (h : Handler) (env : Env) (method f : Str) :
   simp only [asTftp, if_true, Bool.false_eq_true, if_false, hrw, Bool.not_true, Bool.false_and,
     Bool.not_false, Bool.true_and, hget]
   rfl
+
+/-- **TFTP = HTTP ∘ slash, from the configuration on.** Constructing the TFTP class from a
+    configuration and asking it for `f` gives the same result — the same constructor verdict
+    and, if constructed, the same observation — as constructing the HTTP class from the same
+    options and asking it (GET) for the slash-prefixed name. The one exception is
+    `request_path = "/"` in file mode, which only the TFTP constructor rejects. -/
+theorem tftp_parity_cfg (cfg : Cfg) (env : Env) (method f : Str)
+    (hroot : ¬ (cfg.requestPath = ['/'] ∧ truthy cfg.file = true)) :
+    request { cfg with tftp := true } env method f
+      = request { cfg with tftp := false } env "GET".toList (if f.head? = some '/' then f else '/' :: f) := by
+  unfold request
+  rw [initHandler_tftp cfg true hroot]
+  cases hi : initHandler { cfg with tftp := false } with
+  | error e => rfl
+  | ok h =>
+    have hf : asTftp h false = h := by
+      have hc := (initHandler_ok _ h hi).1.cfg_eq
+      cases h with
+      | mk c e p a b s => simp only at hc; subst hc; rfl
+    have := tftp_parity h env method f
+    rw [hf] at this
+    simp only [Except.map]
+    rw [this]
 
 /-! ### the checker of the specification accepts every observation of the model -/
 
